@@ -50,6 +50,14 @@ CLAIMS = {
             "Decides on ALL paths / ALL 53 early-check sites: the loop test dominates the successful return with no cost update in between; the comparisons are strict; apply_op receives budget - cost and budgets are forwarded unchanged; every early check compares the value that is charged with the unmodified budget; the budget influences nothing but CostExceeded. Not that an operator's charged cost equals checked cost plus non-negative terms arithmetically, nor the cost-exempt guard clause.",
             "Trusts rustc's MIR and callee resolution; 'reaches the charged cost' is an additive-flow approximation (locals appearing in the cost slot of a successful return, closed under +).",
             "DESIGN.md 4/C02"),
+    "C03": ("dominance rule on every insertion into the validated-point caches (with bool-specialised reachability across the two `if strict` regions and an interprocedural caller check), trait-impl call inventory for Atom, inventory of representation matches with per-arm error-variant comparison, inventory of random sources",
+            "Decides: the BLS caches can only ever contain valid encodings (so earlier or failed runs cannot change a later outcome); Atom equality/hash are by bytes; the 37 places that branch on the storage form of an atom are exactly the audited ones and their inline arm fails only as the heap arm can; the 5 users of randomness are the audited ones and the drawn value only indexes the split accumulators. A NEW function that branches on the storage form is reported as unaudited. Not the semantic equality of the two arms' arithmetic.",
+            "Trusts rustc's MIR; negating a valid compressed point by flipping bit 0x20 yields a valid encoding (BLS encoding fact); allocator-limit interplay excluded by the property itself.",
+            "DESIGN.md 4/C03"),
+    "C05": ("cfg-gate scanner + cross-configuration comparison of MIR call sequences (default vs no-fastpath vs counters+pre-eval), constant-table relation for the inline path lookup, ordering rule in the u64 fast paths, hash-table validation with hashlib",
+            "Decides: only audited functions have fast paths; the inline path lookup charges the zero-byte surcharge exactly at bit lengths that are multiples of 8 and uses the same constants/direction as the generic lookup; the add/sub fast paths measure the accumulator before updating it and check before updating; all 37 precomputed hashes are correct and indexed under a bound; outside cfg-gated lines the three builds make identical calls in identical order, and gated diagnostic code only accounts / calls callbacks / writes counter fields. Not arithmetic equality of native and bignum sums.",
+            "Trusts the line-range scanner for cfg attributes (bracket matching) and rustc's MIR in three feature configurations.",
+            "DESIGN.md 4/C05"),
     "C04": ("path-sensitive effect counting of the value-preserving restore per verdict (T3), field-matched checkpoint tables, dominance/post-dominance pairing of checkpoint and RestoreAllocator pushes, verdict-switch region analysis in the run loop",
             "Decides the accounting and plumbing clauses on ALL paths: transparent restore count-neutral; Aborted/NoReplace/Replace each change exactly what they must (and compensate before re-creating); node classification uses same-kind counts; the interpreter pairs every checkpoint with one RestoreAllocator below the Apply, replaces the top iff Replace, charges 0; ENABLE_GC read only by gc_candidate. Not that no live node is invalidated (heap-shape invariant).",
             "Trusts rustc's MIR; the gc-candidate opcode list is deliberately not checked (the restore is value-safe for any operator).",
